@@ -64,7 +64,7 @@ Definition sexp_of_call (c : call) : sexp :=
 Definition call_key (c : call) : N :=
   match c with
   | CAttach => 0 | CWalk e _ | COpenDir e | COpen e _ | CCreate e | CRead e | CWrite e | CNext e
-  | CStat e | CWStat e | CClunk e | CRemove e => e
+  | CStat e | CWStat e | CClunk e | CRemove e => e + 1
   end.
 
 Fixpoint ins {A} (key : A -> N) (x : A) (l : list A) : list A :=
@@ -110,6 +110,25 @@ Definition run_case (c : sexp) : sexp :=
     SList (zip_obs ops tr ++
            [SList [ssym "stop"; ssym (if stop_waits o then "blocked" else "returned")];
             SList [sexp_of_result r; sexp_of_table s3; SList (map sexp_of_call (sort_by call_key (cs ++ cs2)))]])
+  else if head_is c "stopwait" || head_is c "queued" then
+    (* (stopwait|queued (SETUP-OP ...) OP1 OP2): two operations at the same time, serialised by the
+       fid locks as OP1 then OP2; the k-th file-system call of the pair takes OP1's k-th token.
+       stopwait: Stop runs beside them and finishes last. *)
+    let ops := map op_of (get_list (arg c 0)) in
+    let tr := srun sess0 ops in
+    let '(o1, ts) := op_of (arg c 1) in
+    let '(o2, _) := op_of (arg c 2) in
+    let '(s1, r1, cs1) := sstep (final sess0 tr) o1 ts in
+    let '(s2, r2, cs2) := sstep s1 o2 (skipn (List.length cs1) ts) in
+    let '(s3, r3, cs3) := do_stop s2 in
+    if head_is c "stopwait" then
+      SList (zip_obs ops tr ++
+             [SList [sexp_of_result r1; sexp_of_result r2; sexp_of_table s3;
+                     SList (map sexp_of_call (sort_by call_key (cs1 ++ cs2 ++ cs3)))]])
+    else
+      SList (zip_obs ops tr ++
+             [SList [sexp_of_result r1; sexp_of_result r2; sexp_of_table s2; SList (map sexp_of_call (cs1 ++ cs2))];
+              sexp_of_step OStop (s3, r3, cs3)])
   else SList [ssym "unknown-case"].
 
 Definition run_line (line : list N) : list N := print_sexp (run_case (parse_sexp line)).
